@@ -61,10 +61,10 @@ def table_stage(ctx: Ctx, dialects, spark_exec=None):
                                   {"case": {"dialect": d, "role": r["role"], "sql": o["sql"]}, "implementation": repr(e)[:300],
                                    "specification": "evaluates like the DuckDB function of the role"}, {"dialect": d, "role": r["role"], "raises": True})
                     continue
-                k = next((i for i, (x, y) in enumerate(zip(a, b)) if abs(x - y) > 1e-9), None)
+                k = next((i for i, (x, y) in enumerate(zip(a, b)) if (x is None) != (y is None) or (x is not None and abs(x - y) > 1e-9)), None)
                 ctx.obligation(f"{r['role']}: {o['sqlname']} on {d} = {r['sqlname']} on duckdb on {len(a)} metric-distinguishing pairs", k is None)
                 for i, p_ in enumerate(D.PROBE_PAIRS):
-                    ctx.count_case(("probe", r["role"], d, p_), a[i] != 0, None)
+                    ctx.count_case(("probe", r["role"], d, p_), bool(a[i]), None)
                 if k is not None:
                     ctx.violation(f"{d}: {o['sqlname']}{D.PROBE_PAIRS[k]} = {b[k]} but duckdb {r['sqlname']} = {a[k]} (role {r['role']})",
                                   {"case": {"dialect": d, "role": r["role"], "values": list(D.PROBE_PAIRS[k]), "sql": o["sql"]},
